@@ -73,3 +73,42 @@ Theorem C16_split_plan_defined : forall n parts mx,
   GUtil.split_plan n parts mx <> None <->
   ((exists p, parts = Some p /\ 2 <= p /\ mx = None) \/ (parts = None /\ exists m, mx = Some m)).
 Proof. exact split_plan_defined. Qed.
+
+(* ---- `bb fps-from-smiles`: the workers and the assembly of their output (Model/FpsGen.v).
+   [fp_of] is RDKit (None = invalid SMILES), [zero] a row of a fresh shared-memory block. ---- *)
+From BB Require Import Model.FpsGen Proofs.FpsGenFacts.
+From Coq Require Import Permutation.
+(* the in-process API: the valid entries in input order, the others by index; nothing
+   uninitialised is returned *)
+Theorem C16_api : forall S R (fp_of : S -> option R) l,
+  api_fps_from_smiles fp_of l = (map Some (valid_fps fp_of l), invalid_idxs fp_of l).
+Proof. exact @api_spec. Qed.
+(* one file filled by several workers: EVERY interleaving of their single-row writes (hence any
+   number of processes and any order of the batches) leaves the API result *)
+Theorem C16_single_file_any_interleaving : forall S R (fp_of : S -> option R) zero n l ws, (0 < n)%nat ->
+  Permutation ws (List.concat (map writes_of (ranges_batches n l))) ->
+  option_map assemble_single (fold_left (apply_write fp_of) ws (Some (shm0 zero (List.length l)))) =
+  Some (valid_fps fp_of l, invalid_idxs fp_of l).
+Proof. exact @single_file_any_interleaving. Qed.
+Theorem C16_single_file_any_schedule : forall S R (fp_of : S -> option R) zero n l tasks, (0 < n)%nat ->
+  Permutation tasks (ranges_batches n l) ->
+  cli_single_file fp_of zero tasks (List.length l) = Some (valid_fps fp_of l, invalid_idxs fp_of l).
+Proof. exact @single_file_any_schedule. Qed.
+Theorem C16_single_file_equals_api : forall S R (fp_of : S -> option R) zero n l tasks rows inv, (0 < n)%nat ->
+  Permutation tasks (ranges_batches n l) ->
+  cli_single_file fp_of zero tasks (List.length l) = Some (rows, inv) ->
+  (map Some rows, inv) = api_fps_from_smiles fp_of l.
+Proof. exact @single_file_equals_api. Qed.
+(* several files, one per batch, written in any order: read back in name order they are the
+   valid entries in input order — with the number of digits the command computes *)
+Theorem C16_multi_file_any_schedule : forall S R (fp_of : S -> option R) stem l p mx parts npb dg tasks,
+  1 <= zlen l -> match p with Some x => 1 <= x | None => True end ->
+  match mx with Some x => 1 <= x | None => True end ->
+  FpsUtil.parse_num_per_batch (zlen l) p mx = Some (parts, npb, Some dg) ->
+  Permutation tasks (with_idxs 0 (batched (Z.to_nat npb) l)) ->
+  cli_multi_file fp_of stem (Some dg) tasks = map Some (valid_fps fp_of l).
+Proof. exact @multi_file_cli_digits. Qed.
+(* the hypotheses carry content: ranges that are not the batches' own, or too few digits, break it *)
+Example C16_overlapping_ranges_break := overlapping_ranges_break.
+Example C16_too_few_digits_break := too_few_digits_break.
+Example C16_fill_example := fill_example.
